@@ -89,9 +89,13 @@ def _coverage(ctx, trace, n_shapes):
     hk_in_range_refused = None
     planned = 0
     repeats = 0
+    enclosed = 0
     walks = 0
     for line in open(trace):
         e = json.loads(line)
+        if "inIntact" not in e:
+            raise vlib.Infra("C15: event without inIntact: %s" % e["ev"])
+        enclosed += e["ev"] == "compute" and e.get("kind") == "enclosed-whole"
         repeats += e["ev"] == "compute" and e.get("kind") == "repeat"
         walks += e["ev"] == "compute" and e.get("kind") == "walk"
         planned += e["ev"] == "set" and e.get("route") == "plan"
@@ -102,6 +106,8 @@ def _coverage(ctx, trace, n_shapes):
             mx = 16 if e["alg"] == "CMAC" else DIGEST[e["hash"]]
             if not e["err"] and not e["panic"] and len(e["outs"]) != mx + 1:
                 raise vlib.Infra("C15: sweep does not cover 0..max")
+    if enclosed == 0:
+        raise vlib.Infra("C15: enclosing-buffer sequence never executed")
     if walks == 0:
         raise vlib.Infra("C15: no PRF object walked through the input-length classes in both directions")
     if repeats == 0:
@@ -141,7 +147,9 @@ def run(ctx):
                           "reused buffer scribbled over after every constructor and call; inputs are logged from pristine copies, "
                           "outputs copied after the scribble; the earliest inputs of every PRF are recomputed at the end (kind=repeat) "
                           "and every PRF object is walked through the input-length classes growing, shrinking to empty and growing "
-                          "again (kind=walk)")
+                          "again (kind=walk); every input has sentinel-filled spare capacity and guard zones and the trace spec judges "
+                          "inIntact (input, spare capacity, guards unchanged) with the value; enclosing-buffer sequence buf[:n] then "
+                          "buf[:n+k] without rewriting (kind=enclosed-*)")
     ctx.assumptions += ["HMAC/SHA and the AES block are the JDK's (independent of Go's standard library)",
                         "'all inputs' is covered by length and content classes, not exhaustively",
                         "for outputs longer than 256 bytes the driver logs '=' when the repeated call returned identical bytes"]
